@@ -46,3 +46,11 @@ Example C14_src_examples :
   gen_ParseError_invalid_encoding_len (ParseError_InvalidEncoding 4 (mk_EncodingError 4 InvalidEncoding_Tilde))
     [SLASH; 102; 111; 111; SLASH; 98; 97; 114; TILDE] = Ret 1.
 Proof. vm_compute. repeat split. Qed.
+
+(* Diagnostic::labels for ParseError, re-translated: one label, inside the failed input, starting at the offending byte *)
+Theorem C14_src_label_inside : forall (s : str) (e : ParseError),
+  gen_validate s = Ret (Err e) ->
+  exists o l, gen_ParseError_labels e s = Ret (Some (o, l)) /\ o + l <= len s /\
+              gen_ParseError_complete_offset e = Ret o.
+Proof. exact gen_parse_error_label_inside. Qed.
+Print Assumptions C14_src_label_inside.
